@@ -193,6 +193,12 @@ def run_case(ck, desc):
             n = desc["rows"]
             pf = np.where(np.arange(n) < n // 2, 3000.0, 1500.0) + rng.normal(0, 10, n)
             gas = np.abs(rng.normal(100, 20, n))
+            if int(desc["seed"]) % 4 == 1:
+                # shut-in / build-up days recorded ABOVE the (hand-set or earlier-fitted) initial
+                # pressure: the figure still shows the recorded pressures and their simulation
+                hot = rng.choice(np.arange(2, n), 3, replace=False)
+                pf[hot] = desc["p_i"] + rng.uniform(10, 300, 3)
+                ck.count("comparison_records_with_pressure_above_p_initial")
             idx = rng.choice(np.arange(1, n), desc["n_zero"], replace=False) if desc["n_zero"] else np.array([], dtype=int)
             gas[idx] = 0.0
             day0 = float(int(desc["seed"]) % 3) * 45.0  # production records often start at a non-zero day
